@@ -5,6 +5,7 @@ from the repo's source) against the two declarative semantics of Model/C08Sem.le
 -/
 import MxlVerif.Lemmas.C08Roundtrip
 import MxlVerif.Lemmas.C08Compartment
+import MxlVerif.Lemmas.C08Total
 namespace Mxl.C08
 open Gen
 
@@ -425,6 +426,53 @@ example : ∃ d, exportModel clashModel = .ok d ∧
     pyRhs (fun _ _ => none) clashModel [("x", 2), ("y", 3)] "y" = some 117 ∧
     docRhs (fun _ _ => none) d [("x", 2), ("y", 3)] "y" = some 117 := by
   refine ⟨_, rfl, ?_, ?_⟩ <;> decide +kernel
+
+/-! ### the exporter is total on its language (Model/C08Language.lean) -/
+
+/-- Every expression that contains neither a construct MathML cannot say (`hasUnsupported`) nor one of the few
+    representable constructs this exporter refuses (`usesRefused`: unary plus, `%`, `floor`, `exp`, `log2`,
+    `math.remainder`, `math.power`) IS exported — whatever its depth and shape: the refusals of the exporter are
+    local to a node, never caused by a combination.  With `C08_math_sound` the export then has the meaning of the
+    expression; with `C08_unsupported_raises` the exporter's domain is known from both sides. -/
+theorem C08_export_total (e : PyExpr) (h : hasUnsupported e = false) (hr : usesRefused e = false) :
+    ∃ m, convert e = .ok m :=
+  ok_of_not_err (convert_total e h hr)
+
+/-- function level: as many arguments as parameters, a body that begins with `return <expression of the language>`,
+    no parameter used as function / module name — then `_sbmlify_fn` returns the MathML tree -/
+theorem C08_fn_export_total (f : PyFn) (hlen : f.params.length = f.args.length)
+    (hlang : bodyInLanguage f.body = true) (hfree : calleeFreeBody f.params f.body = true) :
+    ∃ m, sbmlifyFn f = .ok m := by
+  cases hb : f.body with
+  | nil => rw [hb] at hlang; simp [bodyInLanguage] at hlang
+  | cons s ss =>
+    rw [hb] at hlang hfree
+    cases s with
+    | other => simp [bodyInLanguage] at hlang
+    | ret oe =>
+      cases oe with
+      | none => simp [bodyInLanguage] at hlang
+      | some e =>
+        simp only [bodyInLanguage, Bool.and_eq_true, Bool.not_eq_true'] at hlang
+        simp only [calleeFreeBody, List.all_cons, Bool.and_eq_true] at hfree
+        have h1 : hasUnsupported (renameExpr (f.params.zip f.args) e) = false := by
+          rw [hasUnsupported_rename f.params f.args e hfree.1]; exact hlang.1
+        have h2 : usesRefused (renameExpr (f.params.zip f.args) e) = false := by
+          rw [usesRefused_rename f.params f.args e hfree.1]; exact hlang.2
+        obtain ⟨m, hm⟩ := C08_export_total _ h1 h2
+        have hfirst : bodyFirstReturn = true := rfl
+        exact ⟨m, by simp [sbmlifyFn, zipStrict_total _ _ hlen, bind, Except.bind, handleBody, hfirst, hb, renameStmt,
+          handleBodyFirst, convertStmt, hm, pure, Except.pure]⟩
+
+/-- non-vacuity: a nested conditional with a chained comparison, `np.power`, `math.log10`, `max` of three -/
+def languageExample : PyExpr :=
+  .ifexp (.compare (.const (.num 0)) .lt (.name "x") [(.le, .name "k")])
+    (.call (.lib "np" "power") [.name "x", .const (.num 2)])
+    (.binop .add (.call (.lib "math" "log10") [.name "k"]) (.call (.direct "max") [.name "x", .name "k", .const (.num 1)]))
+example : hasUnsupported languageExample = false ∧ usesRefused languageExample = false := by decide +kernel
+example : usesRefused (.binop .mod (.name "x") (.name "k")) = true ∧
+    usesRefused (.call (.lib "math" "remainder") [.name "x", .name "k"]) = true ∧
+    usesRefused (.call (.lib "np" "remainder") [.name "x", .name "k"]) = false := by decide +kernel
 
 /-! ### the `compartments` option and the species attributes (findings F-C08-14 / -15 / -16, repaired) -/
 
